@@ -240,6 +240,7 @@ DC_TEXTS = [";", "(", ")", ",", ":", "<=", ":=", "=>", "'", "when", "is", "begin
 OWN_KINDS = {
     "nlall": dict(split=1.0, indent0=True),  # every white space run between two code tokens of a line -> line break
     "nlcmt": dict(split=1.0, eol_comment=1.0, own_comment=0.3),  # ... and a comment after every token that ends a line
+    "nlblank": dict(split=1.0, blank=0.5),  # ... and an EMPTY line in half of those places (two line breaks where a blank stood)
     "cmtall": dict(eol_comment=1.0, own_comment=0.5, blank=0.2),
     "upper": dict(case=1.0, casemode="upper"),
     "lower": dict(case=1.0, casemode="lower"),
